@@ -23,7 +23,9 @@ type Imports struct {
 }
 
 func (i *Import) String() string {
-	if strings.HasSuffix(i.Path, i.Alias) {
+	// the alias can only be left out when it is the package's real name
+	// (e.g. alias "v2" of "math/rand/v2" is a suffix of the path but the package is "rand")
+	if strings.HasSuffix(i.Path, i.Alias) && (i.Name == "" || i.Name == i.Alias) {
 		return strconv.Quote(i.Path)
 	}
 
